@@ -29,7 +29,8 @@ ASSUMPTIONS = [
 ]
 TIMEOUT = {"quick": 600, "thorough": 3600}
 NAMES = ["a", "b", "ab", "c"]
-PUNCT_NAMES = ["mq.1", "mq.1:2", "mq", "a<b", "a>b", "a", "a:b", "b:1", "b", "x.y", "q-1", "m q", "k$", "[a]", "a|b", "a+"]
+PUNCT_NAMES = ["mq.1", "mq.1:2", "mq", "a<b", "a>b", "a", "a:b", "b:1", "b", "x.y", "q-1", "m q", "k$", "[a]", "a|b", "a+",
+               "", "", "1", "q1", "a1", "0", "-1", "é", "a" * 40]       # empty, digit-only / digit-ending, non-ASCII, long names
 
 
 def plan(tier, seed):
